@@ -564,7 +564,8 @@ def run(tier):
         rep.merge_counts(r["counts"])
         rep.outcomes.update(r["outcomes"])
         runs += 1 + 2 * len(j[2])
-    sj = [(hn, ai, list(range(0, n, 4))) for hn in ("H1", "H2") for ai in range(0, n, 4)]
+    n0 = len(programs(False))  # the same-name pairs use the basic program set in both tiers
+    sj = [(hn, ai, list(range(0, n0, 4))) for hn in ("H1", "H2") for ai in range(0, n0, 4)]
     for r in core.pmap(_same_name_chunk, sj, chunk=1):
         rep.add_violations(r["violations"])
         rep.merge_counts(r["counts"])
